@@ -243,3 +243,142 @@ def implies_nonzero_or_negative(d, opname, pol, target):
             if sign == -1 and gt:
                 return True
     return False
+
+
+# ---------------------------------------------------------------------------------------------
+# memoisation discipline (seed C06-e): a memoised function hands the *same* object to every caller
+MEMO_DECORATORS = {'lru_cache', 'cache', 'cached_property', 'memoize', 'memoized', 'memo'}
+_LIST_MUTATORS = {'append', 'extend', 'insert', 'pop', 'remove', 'sort', 'reverse', 'clear', 'update', 'add',
+                  'discard', 'setdefault', 'popitem', 'appendleft', 'popleft'}
+
+
+def _memo_decorated(fn):
+    for d in getattr(fn, 'decorator_list', []):
+        t = d.func if isinstance(d, ast.Call) else d
+        name = dotted(t) or ''
+        if name.rpartition('.')[2] in MEMO_DECORATORS:
+            return name
+    return None
+
+
+def memo_discipline(ctx, rule, roots, anchor):
+    """No memoised function in the closure of `roots` has its result mutated in place by a caller.
+
+    A memoising decorator returns the cached object itself; a caller that extends/sorts/stores into it changes what
+    every later caller with the same arguments receives, so the function's result depends on the history of earlier
+    calls (order of the training file, which guesses came before) instead of on its arguments."""
+    repo = ctx.repo
+    closure = ctx.resolver.closure(roots)
+    memo = {}
+    n_funcs = 0
+    for qual, fn in repo.all_funcs():
+        rel = qual.partition('::')[0]
+        if rel not in closure:
+            continue
+        n_funcs += 1
+        d = _memo_decorated(fn)
+        if d:
+            memo[fn.name] = (qual, d)
+    bad = 0
+    sites = 0
+    for qual, fn in repo.all_funcs():
+        rel = qual.partition('::')[0]
+        if rel not in closure or not memo:
+            continue
+        mod = repo.modules[rel]
+        for call in calls_in(fn):
+            f = call.func
+            nm = f.attr if isinstance(f, ast.Attribute) else (f.id if isinstance(f, ast.Name) else None)
+            if nm not in memo:
+                continue
+            sites += 1
+            mq, dec = memo[nm]
+            par = mod.parents.get(id(call))
+            names = set()
+            if isinstance(par, ast.Assign) and par.value is call:
+                for t in par.targets:
+                    if isinstance(t, ast.Name):
+                        names.add(t.id)
+            if isinstance(par, ast.Attribute) and par.attr in _LIST_MUTATORS:
+                gp = mod.parents.get(id(par))
+                if isinstance(gp, ast.Call) and gp.func is par:
+                    bad += 1
+                    ctx.bad(rule, qual, 'result of memoised %s mutated: %s' % (nm, U(gp)[:60]),
+                            '%s is decorated with %s, which returns the cached object itself; mutating it changes the '
+                            'answer given to every later call with the same arguments' % (mq, dec), node=gp)
+            if not names:
+                continue
+            for n in walk_local(fn):
+                hit = None
+                if (isinstance(n, ast.Call) and isinstance(n.func, ast.Attribute) and n.func.attr in _LIST_MUTATORS
+                        and isinstance(n.func.value, ast.Name) and n.func.value.id in names):
+                    hit = n
+                elif (isinstance(n, ast.Subscript) and isinstance(n.ctx, (ast.Store, ast.Del))
+                      and isinstance(n.value, ast.Name) and n.value.id in names):
+                    hit = n
+                elif isinstance(n, ast.AugAssign) and isinstance(n.target, ast.Name) and n.target.id in names:
+                    hit = n
+                if hit is not None:
+                    bad += 1
+                    ctx.bad(rule, qual, 'result of memoised %s mutated: %s' % (nm, U(hit)[:60]),
+                            '%s is decorated with %s, which returns the cached object itself; mutating it in place '
+                            'changes the answer given to every later call with the same arguments (the result then '
+                            'depends on which inputs were processed before)' % (mq, dec), node=hit)
+    if not bad:
+        ctx.ok(rule, anchor, 'no memoised function result is mutated in place by a caller',
+               {'functions_scanned': n_funcs, 'memoised_functions': sorted(q for q, _ in memo.values()),
+                'call_sites_of_memoised': sites})
+
+
+# ---------------------------------------------------------------------------------------------
+# set-order rule (seed C15-e): the iteration order of a set of strings differs between interpreter processes
+def _is_set_ctor(v):
+    return isinstance(v, (ast.Set, ast.SetComp)) or (isinstance(v, ast.Call) and call_name(v) in ('set', 'frozenset'))
+
+
+def set_order_sites(fn):
+    """Sites in `fn` where the (process-dependent) order of a set becomes the order of a sequence.
+
+    A set is recognised by construction: every assignment target (any l-value text: x, x[k][l], self.a) that receives
+    set()/{...}/{.. for ..}; a consumer is list(T)/tuple(T)/enumerate(T)/iter(T)/'sep'.join(T)/for .. in T with the same
+    l-value text T, or the construction itself in that position.  sorted(T) is order-free and not a consumer."""
+    set_lvalues = set()
+    for n in walk_local(fn):
+        if isinstance(n, ast.Assign) and _is_set_ctor(n.value):
+            for t in n.targets:
+                set_lvalues.add(U(t))
+    out = []
+
+    def is_set(e):
+        return _is_set_ctor(e) or U(e) in set_lvalues
+    for n in walk_local(fn):
+        its = []
+        if isinstance(n, (ast.For, ast.comprehension)):
+            its.append(n.iter)
+        if isinstance(n, ast.Call) and call_name(n) in ('list', 'tuple', 'enumerate', 'iter', 'next') and n.args:
+            its.append(n.args[0])
+        if isinstance(n, ast.Call) and isinstance(n.func, ast.Attribute) and n.func.attr in ('join', 'extend') and n.args:
+            its.append(n.args[0])
+        if isinstance(n, ast.Starred):
+            its.append(n.value)
+        for it in its:
+            if is_set(it):
+                out.append((n, it))
+    return out, sorted(set_lvalues)
+
+
+def no_set_order(ctx, rule, rel, floor, what, why):
+    """No function of module `rel` turns the order of a set into the order of a sequence."""
+    m = ctx.repo.mod(rel)
+    bad = False
+    nfn = 0
+    for lname, fn in m.funcs.items():
+        nfn += 1
+        q = rel + '::' + lname
+        ctx.stats['functions'].add(q)
+        sites, lv = set_order_sites(fn)
+        for node, it in sites:
+            bad = True
+            ctx.bad(rule, q, 'order of a set becomes the order of %s: %s' % (what, U(node)[:70]), why, {'set_lvalues': lv}, node)
+    if ctx.floor(rule, rel, nfn, floor, 'functions in ' + rel) and not bad:
+        ctx.ok(rule, rel, 'no sequence of %s takes its order from a set (%d functions)' % (what, nfn))
